@@ -7,7 +7,9 @@ TRUSTED = ['Coq 8.16.1 kernel (coqc; coqchk in the thorough tier); Print Assumpt
            'evaluated on the real views, independent of the model)',
            'oracle for hash-order dependent allocator choices: read from the implementation result, validated by the model (alloc_one, generate_new_free_proxy)',
            'identifiers are numbers on the model side (proxy p<i>:1, nodes n<2i>:1 n<2i+1>:1, hosts h<j>, clusters c<k>); config reduced to one field (migration_scan_count)',
-           'clock: report ages are multiples of 1000 s so that the real clock drift during a run cannot cross a ttl boundary']
+           'clock: report ages are multiples of 1000 s so that the real clock drift during a run cannot cross a ttl boundary',
+           'service layer (C18 C13 C04 C12): harness/brokersvc (svc.rs: real run_server + MemBrokerService + JsonFileStorage over loopback HTTP; repeats the meta-file load of '
+           'src/bin/mem_broker.rs main(); includes harness/broker dom.rs / mon.rs); restarts are removed from the history given to the model (C13_service_restarts_are_identity)']
 
 
 def gen_history(rng, tier):
@@ -268,6 +270,8 @@ def standard_run(chk, prop, extra_histories=(), nquick=250, nthorough=4000):
     chk.sub('distribution', **stats)
     for r in results[:3]:
         chk.sample({'history': r['resolved'][:600], 'impl_tail': r['impl'][-1], 'model_tail': r['model'][-1]})
+    if prop in SERVICE_PROPS:
+        stats['service'] = service_histories(chk, prop)
     return stats
 
 
@@ -276,6 +280,8 @@ def replay(prop, data):
     h = data.get('history')
     if not h:
         print(data); return 0
+    if data.get('service'):
+        return service_replay(chk, prop, h)
     chk.build_impl('broker'); chk.build_models('broker')
     res = run_histories(chk, [h if h.startswith('H ') else 'H 0 ; ' + h], jobs=1)[0]
     ops = res['resolved'].split(' ; ')[1:]
@@ -286,4 +292,294 @@ def replay(prop, data):
         print('%-40s impl: %s%s' % (ops[j] if j < len(ops) else '?', seg, flag))
         mon = seg.split()[3] if len(seg.split()) > 3 else ''
         if any(f.split(':')[0] in LABELS[prop] for f in mon[2:].split('|')): bad = 1
+    return bad
+
+
+# ---------------------------------------------------------------------------------------------------------------------
+# Service layer (src/broker/service.rs): the same histories through the real HTTP server + meta file persistence + restart.
+# harness/brokersvc drives `run_server` + MemBrokerService{auto_update_meta_file} + JsonFileStorage; op `svcrestart` stops the
+# server and starts a new one from the meta file (recover_from_meta_file = true, as src/bin/mem_broker.rs does).
+# Model side: the extracted broker model on the resolved history WITHOUT the restarts (coq/Proofs/BrokerSvc.v: svc_run_strip:
+# a restart is the identity on service states whose file equals the memory, and every svc_step re-establishes that).
+# Demanded after every op: result + store text + all views equal the model's; file store == in-memory store (also after calls
+# that return an error); store after a restart == store before it; a re-registered proxy stays clear of reports / failed mark
+# until a new report or failover names it (across restarts); every GET view served over HTTP == the store's own view.
+#
+# Where the service is not the bare MetaStore call, the harness writes what the service did into the resolved op (see the header of
+# harness/brokersvc/src/svc.rs): cluster config = the service's default_cluster_config, failure ttl / quorum / migration limit =
+# MemBrokerConfig, commit always with clear_free_nodes = false, reports stamped by the broker's clock (age 0 only), add_failure's
+# bool dropped (result `ok`), scale_lock never contended (sequential requests).
+# Not in the gating histories (recorded as observations, see SERVICE_OBSERVED): API calls that change the in-memory store without
+# trigger_update() on the unchanged tree.
+SERVICE_PROPS = ('C18', 'C13', 'C04', 'C12')
+SERVICE_TTL = (2000, 9000)        # seconds; reports of a run are seconds old, so nothing expires (expiry: store-level histories)
+
+
+def _reg(n, nhosts, ordered=False):
+    return ['addproxy %d %d %s' % (i, 10 + (i % nhosts), str(i - 1) if ordered else '-') for i in range(1, n + 1)]
+
+
+def service_scenarios():
+    """directed service histories (<= 25 ops): always run"""
+    hs = [
+        # reports reach the quorum, the STILL registered proxy registers again (AlreadyExisted clears them), restart: they must stay cleared
+        ['H 0'] + _reg(4, 3) + ['addcluster 1 4 3 ?', 'addfail 1 1 0', 'addfail 1 2 0', 'getfail 2000 2', 'addproxy 1 10 -', 'getfail 2000 2',
+                                'svcrestart', 'getfail 2000 2', 'addfail 1 1 0', 'svcrestart', 'getfail 2000 2', 'addfail 1 2 0', 'getfail 2000 2',
+                                'svcrestart', 'getfail 2000 2'],
+        # a free proxy: reported, re-registered, restart; the failed mark (failover without a spare) cleared by re-registration, restart, allocation
+        ['H 0'] + _reg(5, 2) + ['addfail 5 1 0', 'getfail 9000 1', 'addproxy 5 11 -', 'svcrestart', 'getfail 9000 1', 'addcluster 1 4 2 ?', 'replace 1 1 ?',
+                                'replace 2 1 ?', 'svcrestart', 'addproxy 2 10 -', 'svcrestart', 'getfail 9000 1', 'addproxy 1 11 -', 'svcrestart', 'balance 1',
+                                'svcrestart', 'addnodes 1 4 ?', 'svcrestart'],
+        # every refused call followed by a restart (refusals that have already changed the store included: replace without a spare)
+        ['H 0'] + _reg(4, 2) + ['addcluster 1 4 1 ?', 'rmproxy 1', 'svcrestart', 'addcluster 1 4 1 ?', 'svcrestart', 'addcluster 2 4 1 ?', 'svcrestart',
+                                'addnodes 1 2 ?', 'svcrestart', 'delfree 1', 'svcrestart', 'replace 1 1 ?', 'svcrestart', 'replace 77 1 ?', 'svcrestart',
+                                'config 1 0 5', 'svcrestart', 'forcebump 2', 'svcrestart', 'addproxy 1 10 -', 'svcrestart'],
+        ['H 0'] + _reg(4, 2) + ['addcluster 1 4 1 ?', 'commit 1 7 m 0 0-100', 'svcrestart', 'commit 1 7 i 0 -', 'svcrestart',
+                                'commitnth 1 0 0', 'svcrestart', 'rmcluster 9', 'svcrestart', 'rmproxy 9', 'svcrestart', 'scaleup 1 4 ?', 'svcrestart',
+                                'balance 9', 'svcrestart', 'addfail 9 1 0', 'svcrestart', 'addproxy 9 10 -', 'svcrestart', 'addnodes 9 4 ?', 'svcrestart'],
+        # commits, restart in the middle of a migration, scale back in, release
+        ['H 0'] + _reg(8, 3) + ['addcluster 1 4 2 ?', 'addnodes 1 4 ?', 'migrate 1', 'svcrestart', 'commitnth 1 0 0', 'commitnth 1 0 0', 'svcrestart',
+                                'scaledown 1 4', 'commitnth 1 1 0', 'svcrestart', 'commitstale 1 0 0 1', 'svcrestart', 'commitnth 1 0 0', 'delfree 1', 'svcrestart',
+                                'rmcluster 1', 'svcrestart'],
+        # forced epochs and config changes, then restart
+        ['H 0'] + _reg(4, 2) + ['forcebump 30', 'svcrestart', 'addcluster 1 4 7 ?', 'forcebump 300', 'svcrestart', 'config 1 1 9', 'svcrestart', 'forcebump 300',
+                                'svcrestart', 'forcebump 3000', 'config 1 1 11', 'svcrestart', 'rmcluster 1', 'forcebump 3001', 'svcrestart'],
+        # ordered mode: missing index (nothing touched), re-registration, restart keeps the ordered flag from the file
+        ['H 1'] + _reg(4, 2, True) + ['addcluster 1 4 1 ?', 'addproxy 2 10 -', 'svcrestart', 'addfail 2 1 0', 'addproxy 2 10 1', 'svcrestart', 'getfail 2000 1',
+                                      'addcluster 2 4 1 ?', 'svcrestart', 'replace 1 1 ?', 'svcrestart', 'addproxy 1 11 0', 'svcrestart', 'getfail 2000 1'],
+        # failover with a spare, reports on the replacement, balance, restart after each
+        ['H 0'] + _reg(6, 3) + ['addcluster 1 4 1 ?', 'addfail 1 1 0', 'getfail 2000 1', 'replace 1 1 ?', 'svcrestart', 'replacelast 1 ?', 'svcrestart',
+                                'addproxy 1 11 -', 'svcrestart', 'balance 1', 'svcrestart', 'rmproxy 1', 'svcrestart', 'addproxy 1 11 -', 'getfail 2000 1', 'svcrestart'],
+    ]
+    return [' ; '.join(h) for h in hs]
+
+
+def gen_service_history(rng):
+    """random service history, <= 25 ops; restart after 40% of the steps.  A rough picture of the cluster (node count, pending
+    migration) keeps `migrate` / `scaledown` mostly acceptable: a REFUSED one is the known class SERVICE_KNOWN_CLASS, which ends the
+    analysed part of a history."""
+    ordered = rng.random() < 0.15
+    n = rng.randint(5, 8)
+    nh = rng.randint(2, 3)
+    ttl, q = rng.choice(SERVICE_TTL), rng.randint(1, 2)
+    scan = rng.randint(1, 9)
+    ops = _reg(n, nh, ordered)
+    nodes, pending = 0, 0
+    if rng.random() < 0.85:
+        ops.append('addcluster 1 4 %d ?' % scan); nodes = 4
+    budget = 25 - len(ops)
+    while budget > 1:
+        p = rng.randint(1, n)
+        x = rng.random()
+        reg = 'addproxy %d %d %s' % (p, 10 + (p % nh), str(p - 1) if ordered else '-')
+        if x < 0.22: new = ['addfail %d %d 0' % (p, rng.randint(1, 3)) for _ in range(rng.randint(1, 2))] + [reg]
+        elif x < 0.30: new = ['getfail %d %d' % (ttl, q)]
+        elif x < 0.38: new = ['replace %d 1 ?' % p]
+        elif x < 0.44: new = [reg]
+        elif x < 0.50: new = ['rmproxy %d' % p]
+        elif x < 0.60:
+            if nodes == 4 and not pending and n >= 6: new = ['addnodes 1 4 ?', 'migrate 1']; nodes, pending = 8, 2
+            elif nodes == 8 and not pending: new = ['scaledown 1 4']; pending = 2
+            else: new = ['commitnth 1 0 0']; pending = max(0, pending - 1)
+        elif x < 0.72: new = ['commitnth 1 %d 0' % rng.randint(0, 3)]; pending = max(0, pending - 1)
+        elif x < 0.78: new = ['delfree 1']
+        elif x < 0.84: new = ['balance 1']
+        elif x < 0.90: new = ['forcebump %d' % rng.choice([3, 30, 300])]
+        elif x < 0.94: new = ['config 1 %d %d' % (rng.random() < 0.7, rng.randint(1, 50))]
+        elif x < 0.97: new = ['addcluster %d 4 %d ?' % (rng.choice([1, 2]), scan)]
+        else: new = ['rmcluster 1', 'addcluster 1 4 %d ?' % scan]; nodes, pending = 4, 0
+        if rng.random() < 0.4: new.append('svcrestart')
+        if len(new) > budget: break
+        ops += new; budget -= len(new)
+    if ops[-1] != 'svcrestart': ops.append('svcrestart')
+    return 'H %d ; ' % ordered + ' ; '.join(ops)
+
+
+# KNOWN CLASS on the unchanged tree (found by this phase; witness = SERVICE_OBSERVED[0..1]; proposed repair work/fix_service_persist.diff):
+# MetaStoreMigrate::migrate_slots / migrate_slots_to_scale_down take a new global epoch BEFORE they validate the request, and the
+# handlers (service.rs migrate_slots, migrate_slots_to_scale_down) skip trigger_update() when the call is refused: memory is one
+# global epoch ahead of the meta file, a restart from the file takes the global epoch (= the epoch served to free proxies) back by one.
+# Exactly this - refused migrate/scaledown, file and memory equal except for the global epoch number (harness label SVCEPOCH) - is the
+# class; the analysed part of a history ends there (the file stays behind until the next accepted call).  Anything else is a violation.
+SERVICE_KNOWN_CLASS = {'id': 'refused-migration-call-burns-global-epoch', 'ops': ('migrate', 'scaledown')}
+
+
+# Inputs on which the UNCHANGED tree changes the in-memory store without updating the meta file (recorded, not gating; DESIGN.md section 13):
+SERVICE_OBSERVED = [
+    ('refused migrate / scale-down: global epoch taken in memory, meta file one epoch behind, restart takes the epoch back',
+     'H 0 ; ' + ' ; '.join(_reg(4, 2)) + ' ; addcluster 1 4 1 ? ; migrate 1 ; svcrestart ; scaledown 1 2 ; svcrestart ; scaledown 9 4 ; svcrestart'),
+    ('auto-scale refused after it changed the store',
+     'H 0 ; ' + ' ; '.join(_reg(8, 3)) + ' ; addcluster 1 8 1 ? ; scaledown 1 4 ; commitnth 1 0 0 ; commitnth 1 0 0 ; autochange 1 6 ? ; svcrestart'),
+    ('epoch recovery is not written to the meta file',
+     'H 0 ; ' + ' ; '.join(_reg(4, 2)) + ' ; addcluster 1 4 1 ? ; svcrecover 0 ; svcrestart'),
+    ('GET /failures prunes expired reports in memory only',
+     'H 0 ; ' + ' ; '.join(_reg(4, 2)) + ' ; addfail 1 1 0 ; getfail 0 1 ; svcrestart ; getfail 0 1'),
+]
+
+
+def _norm_model_res(op, res):
+    k = op.split()[0] if op.split() else '?'
+    if k == 'addfail' and res.startswith('bool:'): return 'ok'                 # the service drops add_failure's bool
+    if k == 'autochange':
+        if res in ('scale:noop', 'scale:down'): return 'ok'                       # the ScaleOp is not part of the HTTP reply
+        if res == 'scale:out': return 'err:PROXY_NOT_SYNC'                        # the harness' proxy addresses are unreachable
+    return res
+
+
+def run_service(chk, histories, jobs=3):
+    """-> list of dicts: history, skipped, ops (resolved, with restarts), segs [{op, impl, model, expect}]"""
+    rc, impl = chk.run_impl('brokersvc', histories, jobs=jobs, timeout=3000)
+    parsed, model_in = [], []
+    for i, h in enumerate(histories):
+        line = impl[i] if i < len(impl) else ''
+        if line.startswith('R ') and ' ## O ' in line:
+            r, o = line.split(' ## O ', 1)
+            ops = [x.strip() for x in r[2:].split(' ; ')]
+            parsed.append({'history': h, 'header': ops[0], 'ops': ops[1:], 'impl': [x.strip() for x in o.split(' ; ')], 'skipped': None})
+            model_in.append(' ; '.join([ops[0]] + [x for x in ops[1:] if x != 'svcrestart']))
+        else:
+            parsed.append({'history': h, 'header': 'H 0', 'ops': [], 'impl': [], 'skipped': line[:200] or 'harness-output-missing'})
+            model_in.append('H 0')
+    rc2, model = chk.run_model('broker', model_in, jobs=jobs, timeout=3000)
+    for i, pr in enumerate(parsed):
+        m = model[i] if i < len(model) else ''
+        mseg = [x.strip() for x in m[2:].split(' ; ')] if m.startswith('O ') and len(m) > 2 else []
+        segs, j, last = [], 0, None
+        for k, seg in enumerate(pr['impl']):
+            op = pr['ops'][k] if k < len(pr['ops']) else '?'
+            if op == 'svcrestart':
+                # model: a restart is the identity (svc_run_strip); before any op the store is the initial one (no model line to compare with)
+                segs.append({'op': op, 'impl': seg, 'expect': (['restarted'] + last) if last else None})
+            else:
+                ms = mseg[j].split() if j < len(mseg) else ['<model-output-missing>']
+                j += 1
+                exp = [_norm_model_res(op, ms[0])] + ms[1:3]
+                last = ms[1:3]
+                segs.append({'op': op, 'impl': seg, 'expect': exp, 'model_mon': ms[3] if len(ms) > 3 else 'm=?'})
+        pr['segs'] = segs
+    return parsed
+
+
+def service_analyse(chk, prop, parsed, report=True):
+    labels = set(LABELS[prop]) | {'SVC', 'ANY'}
+    st = {'histories': 0, 'skipped': 0, 'ops': 0, 'restarts': 0, 'refused_calls': 0, 'refused_then_restart': 0, 'reregistered_already_existed': 0,
+          'commits_ok': 0, 'monitor_failures': 0, 'disagreements': 0, 'op_kinds': {}, 'results': {},
+          'known_class': SERVICE_KNOWN_CLASS['id'], 'known_class_hits': 0, 'ops_not_analysed_after_known_class': 0}
+    first_dis = None
+    for pr in parsed:
+        if pr['skipped']:
+            st['skipped'] += 1
+            if report:
+                chk.violation({'kind': 'correspondence', 'correspondence': 'harness/brokersvc produced no result for a generated service history', 'history': pr['history'],
+                               'service': True, 'detail': pr['skipped']}, no_input=True)
+            continue
+        st['histories'] += 1
+        prefix = lambda k: ' ; '.join([pr['header']] + pr['ops'][:k + 1])
+        prev_hash, prev_res, diverged, nontrivial = None, '', False, False
+        for k, sg in enumerate(pr['segs']):
+            toks = sg['impl'].split()
+            res, hs, hv = (toks + ['?', '?', '?'])[:3]
+            mon = toks[3] if len(toks) > 3 else 'm=?'
+            fh = toks[4][2:] if len(toks) > 4 and toks[4].startswith('f=') else '?'
+            kind = sg['op'].split()[0] if sg['op'].split() else '?'
+            st['ops'] += 1
+            st['op_kinds'][kind] = st['op_kinds'].get(kind, 0) + 1
+            st['results'][res.split(':')[0] + (':' + res.split(':', 1)[1] if res.startswith('err:') else '')] = \
+                st['results'].get(res.split(':')[0] + (':' + res.split(':', 1)[1] if res.startswith('err:') else ''), 0) + 1
+            if kind == 'svcrestart':
+                st['restarts'] += 1
+                if prev_res.startswith('err:'): st['refused_then_restart'] += 1
+            if res.startswith('err:'): st['refused_calls'] += 1
+            if kind == 'addproxy' and res == 'err:ALREADY_EXISTED': st['reregistered_already_existed'] += 1; nontrivial = True
+            if kind.startswith('commit') and res == 'ok': st['commits_ok'] += 1; nontrivial = True
+            fails = [f for f in mon[2:].split('|')] if mon != 'm=ok' else []
+            if (kind in SERVICE_KNOWN_CLASS['ops'] and res.startswith('err:') and fh != hs and prev_hash is not None
+                    and any(f.startswith('SVCEPOCH:meta_file') for f in fails) and not any(f.startswith('SVC:') for f in fails)):
+                st['known_class_hits'] += 1
+                st['ops_not_analysed_after_known_class'] += len(pr['segs']) - k - 1
+                break
+            fails = [('SVC:' + f[9:] + '_(global_epoch_only)') if f.startswith('SVCEPOCH:') else f for f in fails]
+            # the contract itself, recomputed from the printed hashes (independent of the harness' own comparison)
+            if fh != hs:
+                fails.append('SVC:meta_file_hash_%s_differs_from_the_in-memory_store_hash_%s_after_%s_(%s)' % (fh, hs, kind, res))
+            if kind == 'svcrestart' and prev_hash is not None and hs != prev_hash:
+                fails.append('SVC:store_hash_after_restart_%s_differs_from_the_hash_before_%s' % (hs, prev_hash))
+            seen = set()
+            for f in fails:
+                lab = f.split(':')[0]
+                if lab in labels and f not in seen:
+                    seen.add(f)
+                    st['monitor_failures'] += 1
+                    if report:
+                        chk.violation({'kind': 'monitor', 'service': True, 'what': f.replace('_', ' '), 'history': prefix(k), 'failing_op_index': k,
+                                       'failing_op': sg['op'], 'layer': 'src/broker/service.rs: HTTP handler + trigger_update / restart from the meta file'})
+            exp = sg['expect']
+            if exp is not None and [res, hs, hv] != exp:
+                if not diverged: st['disagreements'] += 1
+                diverged = True
+                if first_dis is None:
+                    first_dis = {'history': prefix(k), 'op_index': k, 'op': sg['op'], 'impl': sg['impl'], 'model_expected': ' '.join(exp)}
+            elif exp is not None and sg.get('model_mon', 'm=ok') != 'm=ok' and report:
+                chk.violation({'kind': 'model-monitor', 'service': True, 'what': 'extracted predicate false on the model state: ' + sg['model_mon'],
+                               'history': prefix(k), 'op_index': k}, no_input=True)
+            prev_hash, prev_res = hs, res
+        chk.count('svc ' + pr['history'], nontrivial)
+    if first_dis and not st['monitor_failures'] and report:
+        chk.violation(dict(first_dis, kind='correspondence', service=True,
+                           correspondence='Model/Broker.v step (restarts = identity, Proofs/BrokerSvc.v svc_run_strip) vs the real HTTP service '
+                                          '(run_server + MemBrokerService + JsonFileStorage)',
+                           search='service monitors of %s evaluated after every one of %d requests / restarts of %d histories: no property failure'
+                                  % (prop, st['ops'], st['histories'])), no_input=True)
+    return st
+
+
+def service_histories(chk, label):
+    """phase run by standard_run for SERVICE_PROPS"""
+    ip = chk.build_impl('brokersvc')
+    for p in ip:
+        chk.violation({'kind': 'correspondence-build', 'correspondence': 'harness/brokersvc against /repo working tree', 'detail': p,
+                       'log': '%s/cargo_%s.log' % (vlib.WORK, chk.prop)}, no_input=True)
+    if ip:
+        return None
+    rng = random.Random(chk.seed * 1000003 + 18)      # own stream: the store-level histories stay what they were
+    n = 4 if chk.tier == 'quick' else 150
+    hs = service_scenarios() + [gen_service_history(rng) for _ in range(n)]
+    parsed = run_service(chk, hs, jobs=3 if chk.tier == 'quick' else 8)
+    st = service_analyse(chk, label, parsed)
+    # recorded observations: inputs on which the unchanged tree leaves the meta file behind the memory (never gating)
+    obs = run_service(chk, [h for _, h in SERVICE_OBSERVED], jobs=1)
+    seen = []
+    for (what, _), pr in zip(SERVICE_OBSERVED, obs):
+        o = service_analyse(chk, label, [pr], report=False) if not pr['skipped'] else {'monitor_failures': 0}
+        first = next((sg['op'] + ' -> ' + sg['impl'].split()[0] for sg in pr.get('segs', [])
+                      if len(sg['impl'].split()) > 3 and ('SVC:' in sg['impl'].split()[3] or 'SVCEPOCH:' in sg['impl'].split()[3])), None)
+        seen.append({'what': what, 'history': pr['history'], 'file_behind_memory_at': first, 'reobserved': bool(o['monitor_failures'] or o.get('known_class_hits'))})
+    st['observed_not_gating'] = seen
+    chk.sub('service_layer', **st)
+    chk.cov['rule'] += ('; service layer (labels %s): %d directed + %d random histories of <= 25 requests through the real HTTP server with meta-file persistence, '
+                        'a restart from the file after refused calls / commits / forced epochs; same comparison + file == memory after every request + restart = identity'
+                        % (', '.join(SERVICE_PROPS), len(service_scenarios()), n))
+    if parsed:
+        pr = parsed[0]
+        chk.sample({'service_history': ' ; '.join([pr['header']] + pr['ops'])[:600], 'impl_tail': pr['impl'][-1] if pr['impl'] else pr['skipped']})
+    return st
+
+
+def service_replay(chk, prop, h):
+    chk.build_impl('brokersvc'); chk.build_models('broker')
+    pr = run_service(chk, [h if h.startswith('H ') else 'H 0 ; ' + h], jobs=1)[0]
+    if pr['skipped']:
+        print('harness/brokersvc: ' + pr['skipped']); return 1
+    labels = set(LABELS[prop]) | {'SVC', 'ANY'}
+    bad, prev = 0, None
+    for sg in pr['segs']:
+        toks = sg['impl'].split()
+        exp = sg['expect']
+        flag = '' if exp is None or toks[:3] == exp else '   <-- model expects: ' + ' '.join(exp)
+        print('%-36s svc: %s%s' % (sg['op'], sg['impl'], flag))
+        mon = toks[3] if len(toks) > 3 else ''
+        if any(f.split(':')[0] in labels for f in mon[2:].split('|')): bad = 1
+        if len(toks) > 4 and toks[4] != 'f=' + toks[1]: bad = 1
+        if sg['op'] == 'svcrestart' and prev is not None and toks[1] != prev: bad = 1
+        prev = toks[1] if len(toks) > 1 else prev
     return bad
